@@ -127,6 +127,14 @@ func (e *Exec) execStmt(st *State, s ast.Stmt) *State {
 				d.args = append(d.args, e.eval(st, a))
 			}
 		}
+		if e.fr().loopDepth == 0 {
+			d.armed = e.newPseudo("armed", types.Typ[types.Bool])
+			if e.armedVar == nil {
+				e.armedVar = map[types.Object]bool{}
+			}
+			e.armedVar[d.armed] = true
+			st.Vars[d.armed] = True
+		}
 		e.fr().defers = append(e.fr().defers, d)
 		return st
 	case *ast.GoStmt:
@@ -783,6 +791,12 @@ func (e *Exec) execFor(st *State, s *ast.ForStmt, label string) *State {
 		}
 	}
 	ord, spec := e.nextLoop(s)
+	// ghost counter of completed iterations (__iter()): 0 at entry, unknown but non-negative at the head, one more
+	// when the body (and the post statement) has run
+	cntObj := e.newPseudo("iter", types.Typ[types.Int])
+	st.Vars[cntObj] = Int(0)
+	e.vis = append(e.vis, visInfo{ord: ord, cnt: cntObj})
+	defer func() { e.vis = e.vis[:len(e.vis)-1] }()
 	e.checkInvariants(st, ord, spec, "inv-init", s.Pos())
 	var extra []ast.Node
 	if s.Post != nil {
@@ -793,6 +807,9 @@ func (e *Exec) execFor(st *State, s *ast.ForStmt, label string) *State {
 	}
 	head := e.havocLoop(st, s.Body, extra, spec)
 	given := e.lastGiven
+	iterC := e.Ctx.Fresh("iter", SInt)
+	head.Vars[cntObj] = iterC
+	e.assume(head, Ge(iterC, Int(0)))
 	e.assumeInvariants(head, spec)
 	var dec0 Term
 	if spec.Decreases != nil {
@@ -812,7 +829,9 @@ func (e *Exec) execFor(st *State, s *ast.ForStmt, label string) *State {
 	}
 	body := e.withPC(head, cond)
 	e.canary(body, fmt.Sprintf("loop%d-body", ord), s.Body.Pos())
+	e.fr().loopDepth++
 	out := e.execBlock(body, s.Body.List)
+	e.fr().loopDepth--
 	conts := append([]*State{out}, f.conts[""]...)
 	if label != "" {
 		conts = append(conts, f.conts[label]...)
@@ -822,6 +841,7 @@ func (e *Exec) execFor(st *State, s *ast.ForStmt, label string) *State {
 		if s.Post != nil {
 			end = e.execStmt(end, s.Post)
 		}
+		end.Vars[cntObj] = Add(iterC, Int(1))
 		e.checkInvariants(end, ord, spec, "inv-pres", s.Pos())
 		e.loopFrame(head, end, ord, given, s.Pos())
 		if spec.Decreases != nil {
@@ -939,7 +959,9 @@ func (e *Exec) execRangeSeq(st *State, s *ast.RangeStmt, label string, xt types.
 		e.bindRangeVar(body, s.Value, define, v)
 	}
 	e.canary(body, fmt.Sprintf("loop%d-body", ord), s.Body.Pos())
+	e.fr().loopDepth++
 	out := e.execBlock(body, s.Body.List)
+	e.fr().loopDepth--
 	conts := append([]*State{out}, f.conts[""]...)
 	if label != "" {
 		conts = append(conts, f.conts[label]...)
@@ -1025,7 +1047,9 @@ func (e *Exec) execRangeMap(st *State, s *ast.RangeStmt, label string, mt *types
 	body.Vars[visObj] = Store(vis, k, True)
 	body.Vars[cntObj] = Add(iter, Int(1))
 	e.canary(body, fmt.Sprintf("loop%d-body", ord), s.Body.Pos())
+	e.fr().loopDepth++
 	out := e.execBlock(body, s.Body.List)
+	e.fr().loopDepth--
 	conts := append([]*State{out}, f.conts[""]...)
 	if label != "" {
 		conts = append(conts, f.conts[label]...)
